@@ -1176,8 +1176,12 @@ def _store_subscript(it, obj, k, v, aug=False):
                 obj.labels = list(obj.labels) + [k]
                 obj.v.append(v)
         elif isinstance(k, int) and not isinstance(k, bool):
+            if not -len(obj.v) <= k < len(obj.v):
+                raise Raised("IndexError", f"index {k} is out of bounds for a store into {len(obj.v)} values")
             obj.v[k] = v
         elif isinstance(k, Term) and k.is_const():
+            if not -len(obj.v) <= int(k.cval()) < len(obj.v):
+                raise Raised("IndexError", f"index {k} is out of bounds for a store into {len(obj.v)} values")
             obj.v[int(k.cval())] = v
         elif isinstance(k, slice) and k == slice(None, None, None):
             obj.v = bcast(v, len(obj.v))
